@@ -29,7 +29,7 @@ def worker_init(lane):
 
 
 def floors(tier):
-    return {NAME: 50 if tier == "quick" else 900}
+    return {NAME: 40 if tier == "quick" else 900}
 
 
 def gen_cases(tier, seed):
@@ -39,7 +39,7 @@ def gen_cases(tier, seed):
         chosen = universe
     else:
         rng = np.random.default_rng([seed, 18])
-        chosen = [universe[i] for i in rng.choice(len(universe), size=150, replace=False)]
+        chosen = [universe[i] for i in rng.choice(len(universe), size=110, replace=False)]
         mono = [c for c in universe if c["kind"] == "monolayer"]
         have = {c["key"] for c in chosen}
         chosen += [c for c in [mono[i] for i in rng.choice(len(mono), size=6, replace=False)] if c["key"] not in have]
